@@ -724,7 +724,37 @@ func c07LongSum(g *Gen, terms int) {
 	}
 }
 
+// c07WriteErrors: printer.Fprint into a writer that fails after k bytes (every k below the length of the
+// text) must report an error — otherwise a cut-off script, which may well parse to a different chain, is
+// passed off as complete.
+func c07WriteErrors(g *Gen) {
+	for _, src := range []string{"a = 2*1\nb = a + 1\nreturn b << 3 + a\n", "return 1\n", "x = 1 << 7\ny = x + 1\nz = (y + x) << 2\nreturn z + y + x + 1\n"} {
+		_, ch := c07ParseText(src)
+		if ch == nil {
+			continue
+		}
+		full, err := printer.String(ch)
+		if err != nil {
+			continue
+		}
+		for k := 0; k < len(full); k++ {
+			w := &failAfter{n: k}
+			var e error
+			if pn := safe(func() { e = printer.Fprint(w, ch) }); pn != "" {
+				g.Notes = append(g.Notes, fmt.Sprintf("VIOLATION: printer.Fprint panics when the writer fails after %d bytes: %s", k, pn))
+				return
+			}
+			g.Count("write-error")
+			if e == nil {
+				g.Notes = append(g.Notes, fmt.Sprintf("VIOLATION: printer.Fprint reports success although the writer failed after %d of %d bytes; written %q", k, len(full), string(w.written)))
+				return
+			}
+		}
+	}
+}
+
 func genC07(g *Gen) {
+	c07WriteErrors(g)
 	// the generated parser allocates heavily on every failing parse; a relaxed GC halves the wall time
 	// (collect only when the heap approaches 3 GiB)
 	defer debug.SetGCPercent(debug.SetGCPercent(-1))
